@@ -40,12 +40,16 @@ func zzOrderEnv() *env.Env {
 }
 
 // zzOperands builds n operands p(0..n-1); operand j (if 0<=j<n) fails.
-func zzOperands(n, j int) []ast.Expr {
+func zzOperands(n, j int) []ast.Expr { return zzOperandsKind(n, j, "pbad") }
+
+// zzOperandsKind: the failing operand is a call of bad (pbad raises; pstr
+// yields a string no int64 parameter accepts, so its conversion fails).
+func zzOperandsKind(n, j int, bad string) []ast.Expr {
 	out := make([]ast.Expr, n)
 	for i := range out {
 		name := "p"
 		if i == j {
-			name = "pbad"
+			name = bad
 		}
 		out[i] = zzProbeCall(name, i)
 	}
@@ -85,7 +89,13 @@ func ZZ_C07_calls() {
 	n := zz.Choose(7) // 0..6 operands: the reflect path of script functions starts at 5 parameters
 	j := zz.Choose(n+1) - 1
 	spread := n > 0 && zz.Choose(2) == 1
-	ops := zzOperands(n, j)
+	// for Go callees with int64 parameters the failure may also be the
+	// conversion of the operand's value for the parameter
+	bad := "pbad"
+	if ci >= 1 && ci <= 4 && j >= 0 && zz.Choose(2) == 1 {
+		bad = "pstr"
+	}
+	ops := zzOperandsKind(n, j, bad)
 	if spread && j != n-1 {
 		ops[n-1] = zzProbeCall("ps", n-1)
 	}
@@ -108,6 +118,9 @@ func ZZ_C07_calls() {
 	_, err := Run(e, &Options{Debug: false}, st)
 	zz.Drain()
 	id := callee + "/" + []string{"direct", "anonymous", "go", "defer"}[mode]
+	if bad == "pstr" {
+		id += "/conversion-fails"
+	}
 	if spread {
 		id += "/spread"
 	}
@@ -309,4 +322,93 @@ func ZZ_C07_short_circuit() {
 	zz.Assert(c1 == want1, "C07.short-circuit/right-only-when-needed/"+id)
 	zz.Assert(c2 == want2, "C07.short-circuit/third-only-when-needed/"+id)
 	_ = reflect.ValueOf
+}
+
+// zzOrderObj: a Go value whose methods are reached with member syntax.
+type zzOrderObj struct{ N int64 }
+
+func (o *zzOrderObj) M2(a, b int64) int64           { return a + b + o.N }
+func (o zzOrderObj) V2(a, b int64) int64            { return a - b }
+func (o *zzOrderObj) MV(a int64, rest ...int64) int { return len(rest) }
+
+// ZZ_C07_member_calls: calls whose callee is itself an expression - a method
+// of a Go value, a function of a module, an element of a container, a
+// function literal - directly, through go and through defer.
+func ZZ_C07_member_calls() {
+	e := zzOrderEnv()
+	e.Define("obj", &zzOrderObj{N: 1})
+	e.Define("val", zzOrderObj{N: 2})
+	mod, _ := e.NewModule("mod")
+	mod.DefineValue("s2", zzScriptFunc(2, false))
+	mod.DefineValue("sv1", zzScriptFunc(1, true))
+	e.Define("fs", []interface{}{zzScriptFunc(2, false).Interface(), func(a, b int64) int64 { return a * b }})
+	callees := []struct {
+		name  string
+		expr  ast.Expr
+		arity int // -1: at least one
+	}{
+		{"obj.M2", &ast.MemberExpr{Expr: zzIdent("obj"), Name: "M2"}, 2},
+		{"val.V2", &ast.MemberExpr{Expr: zzIdent("val"), Name: "V2"}, 2},
+		{"obj.MV", &ast.MemberExpr{Expr: zzIdent("obj"), Name: "MV"}, -1},
+		{"mod.s2", &ast.MemberExpr{Expr: zzIdent("mod"), Name: "s2"}, 2},
+		{"mod.sv1", &ast.MemberExpr{Expr: zzIdent("mod"), Name: "sv1"}, -1},
+		{"fs[0]", &ast.ItemExpr{Item: zzIdent("fs"), Index: zzLit(int64(0))}, 2},
+		{"fs[1]", &ast.ItemExpr{Item: zzIdent("fs"), Index: zzLit(int64(1))}, 2},
+		{"literal", &ast.FuncExpr{Params: []string{"a", "b"}, Stmt: &ast.ReturnStmt{Exprs: []ast.Expr{zzIdent("a")}}}, 2},
+	}
+	c := callees[zz.Choose(len(callees))]
+	n := zz.Choose(4)
+	j := zz.Choose(n+1) - 1
+	bad := "pbad"
+	if (c.name == "obj.M2" || c.name == "val.V2" || c.name == "obj.MV" || c.name == "fs[1]") && j >= 0 && zz.Choose(2) == 1 {
+		bad = "pstr"
+	}
+	spread := n > 0 && zz.Choose(2) == 1
+	ops := zzOperandsKind(n, j, bad)
+	if spread && j != n-1 {
+		ops[n-1] = zzProbeCall("ps", n-1)
+	}
+	mode := zz.Choose(3)
+	var st ast.Stmt
+	switch mode {
+	case 0:
+		st = &ast.ExprStmt{Expr: &ast.AnonCallExpr{Expr: c.expr, SubExprs: ops, VarArg: spread}}
+	case 1:
+		st = &ast.GoroutineStmt{Expr: &ast.AnonCallExpr{Expr: c.expr, SubExprs: ops, VarArg: spread, Go: true}}
+	case 2:
+		st = &ast.StmtsStmt{Stmts: []ast.Stmt{
+			&ast.DeferStmt{Expr: &ast.AnonCallExpr{Expr: c.expr, SubExprs: ops, VarArg: spread}},
+			&ast.ExprStmt{Expr: zzProbeCall("p", 50)},
+		}}
+	}
+	zz.ResetTrace()
+	_, err := Run(e, &Options{Debug: false}, st)
+	zz.Drain()
+	id := c.name + "/" + []string{"direct", "go", "defer"}[mode]
+	if bad == "pstr" {
+		id += "/conversion-fails"
+	}
+	if spread {
+		id += "/spread"
+	}
+	if mode == 2 {
+		tr := zz.Trace()
+		seen50, ok := false, true
+		for _, t := range tr {
+			if t == 50 {
+				seen50 = true
+			} else if seen50 {
+				ok = false
+			}
+		}
+		zz.Assert(ok, "C07.defer-evaluates-operands-at-the-statement/"+id)
+		zz.ResetTrace()
+		for _, t := range tr {
+			if t != 50 {
+				zz.Probe(t)
+			}
+		}
+	}
+	fits := !spread && (c.arity == n || (c.arity == -1 && n >= 1))
+	zzCheckTrace(id, n, j, err != nil, fits)
 }
